@@ -192,7 +192,14 @@ def vec_index(se, env, pc, r, i):
         return [(ok, Opaque('byte of an abstract buffer'), env.get('$state'))]
     if not isinstance(i, (int, dict)) and is_bv(i):
         c = se.concretize(i)
-        if c is None: raise Inconclusive('symbolic index into a vector (%s)' % i)
+        if c is None:
+            # case split over the positions of a short vector (and the out-of-bounds panic)
+            rr = base_ref(se, env, r) if isinstance(r, Ref) else None
+            l = get_at(env[rr.local], rr.path) if rr is not None else None
+            if not isinstance(l, list) or len(l) > 8: raise Inconclusive('symbolic index into a vector (%s)' % i)
+            n = BitVecVal(len(l), i.size())
+            if se.check(UGE(i, n)): se.panics.append((list(pc) + [UGE(i, n)], 'index out of bounds (summary)', 'summary'))
+            return [(i == BitVecVal(k, i.size()), Ref(rr.local, rr.path + (k,)), env.get('$state')) for k in range(len(l))]
         i = c
     v0 = se.deref(env, r) if isinstance(r, Ref) else r
     if isinstance(v0, dict) and 'len' in v0 and isinstance(i, dict) and i.get('__ty') == 'Range': return abs_slice(se, env, pc, v0, i)
@@ -474,10 +481,36 @@ def _into(se, env, pc, v):
     raise Inconclusive('Into::into needs an obligation-specific summary')
 
 
+def int_summaries(P):
+    """Inherent integer methods (unsigned types; the width is that of the operands)."""
+    from z3 import If, BVAddNoOverflow, BVMulNoOverflow, LShR
+    U = r'(?:core|std)::num::<impl u(?:8|16|32|64|size)>::'
+    def two(f): return lambda se, env, pc, a, b: one(env, f(a, b))
+    def sh(a, b): return ZeroExt(a.size() - b.size(), b) if b.size() < a.size() else (Extract(a.size() - 1, 0, b) if b.size() > a.size() else b)
+    P[U + 'saturating_sub'] = two(lambda a, b: If(ULT(a, b), BitVecVal(0, a.size()), a - b))
+    P[U + 'saturating_add'] = two(lambda a, b: If(BVAddNoOverflow(a, b, False), a + b, BitVecVal((1 << a.size()) - 1, a.size())))
+    P[U + 'wrapping_add'] = two(lambda a, b: a + b); P[U + 'wrapping_sub'] = two(lambda a, b: a - b); P[U + 'wrapping_mul'] = two(lambda a, b: a * b)
+    P[U + 'wrapping_shl'] = two(lambda a, b: a << (sh(a, b) & BitVecVal(a.size() - 1, a.size()))); P[U + 'wrapping_shr'] = two(lambda a, b: LShR(a, sh(a, b) & BitVecVal(a.size() - 1, a.size())))
+    def checked(ok, f):
+        def g(se, env, pc, a, b):
+            st = env.get('$state'); c = ok(a, b)
+            return [(c, Enum('Some', (f(a, b),)), st), (Not(c), Enum('None'), st)]
+        return g
+    P[U + 'checked_sub'] = checked(lambda a, b: ULE(b, a), lambda a, b: a - b)
+    P[U + 'checked_add'] = checked(lambda a, b: BVAddNoOverflow(a, b, False), lambda a, b: a + b)
+    P[U + 'checked_mul'] = checked(lambda a, b: BVMulNoOverflow(a, b, False), lambda a, b: a * b)
+    P[U + 'abs_diff'] = two(lambda a, b: If(ULT(a, b), b - a, a - b))
+    P[U + 'min'] = two(lambda a, b: If(ULT(b, a), b, a)); P[U + 'max'] = two(lambda a, b: If(ULT(a, b), b, a))
+    P[r'<u(?:8|16|32|64|size) as Ord>::(min|max)'] = None
+    del P[r'<u(?:8|16|32|64|size) as Ord>::(min|max)']
+    P[r'<u(?:8|16|32|64|size) as Ord>::min'] = P[U + 'min']; P[r'<u(?:8|16|32|64|size) as Ord>::max'] = P[U + 'max']
+
+
 def std_summaries():
     S = {}
     P = {}
     S['$patterns'] = P
+    int_summaries(P)
     P[r'(?:core|std)::slice::<impl \[.*\]>::sort_by_key'] = _sort_by_key_late
     P[r'<\[Vec<.*>; (\d+)\] as Default>::default'] = lambda se, env, pc: one(env, [[] for _ in range(7)])
     P[r'<.* as Iterator>::map'] = it_map
